@@ -47,3 +47,86 @@ def check (params : List String) (lines : List String) : CaseResult := Id.run do
   return r
 
 end Bpmn.Driver.C14
+
+namespace Bpmn.Driver.C14
+open Bpmn.Driver Bpmn.Model.Satisfier
+
+/-- Engine-level family `c14eng`: a (parallel-)multiple catch event `C` inside a loop (`C → T → back to C`).
+params: par d rounds. The model: the node listens from the arrival of the token until it fires; its satisfier
+lives across activations (chains are NOT reset on re-entry — that is what keeps "fired k times when every
+definition was matched k times" true over the whole history). -/
+def checkEng (params : List String) (lines : List String) : CaseResult := Id.run do
+  let some (par, d, rounds) := (match params with
+      | [p, d, r] => do pure ((← parseBool? p), (← d.toNat?), (← r.toNat?))
+      | _ => none) | return { bad := ["c14eng params"] }
+  let mut r : CaseResult := {}
+  -- segment the history: each op with the observations that follow it
+  let mut segs : List (List String × List String) := []      -- (op words, obs lines after it)
+  let mut cur : Option (List String) := none
+  let mut acc : List String := []
+  for ln in lines do
+    match words ln with
+    | "op" :: rest =>
+      match cur with
+      | some o => segs := segs ++ [(o, acc)]
+      | none => pure ()
+      cur := some rest
+      acc := []
+    | "obs" :: rest => acc := acc ++ [" ".intercalate rest]
+    | "harness-error" :: _ => r := { r with bad := ln :: r.bad }
+    | _ => r := { r with bad := ln :: r.bad }
+  match cur with
+  | some o => segs := segs ++ [(o, acc)]
+  | none => pure ()
+  let mut sat := Sat.init d par
+  let mut listening := true
+  let mut implListening := true
+  let mut hist : List (Option Nat) := []       -- events observed while the implementation listened
+  let mut implFires := 0
+  let mut n := 0
+  for (op, obs) in segs do
+    n := n + 1
+    let requested := obs.any (fun o => (words o).take 2 == ["task", "T"])
+    if obs.any (fun o => (words o).getD 2 "" == "blocked") then
+      r := { r with specs := s!"catch_delivery_blocked: op {n}" :: r.specs }
+    match op with
+    | ["deliver", _, name] =>
+      let ev : Option Nat :=
+        if name.startsWith "sig" then (match (name.drop 3).toString.toNat? with | some k => if k < d then some k else none | none => none)
+        else none
+      -- model
+      let mut expect := false
+      if listening then
+        let (s', m, _) := satisfy sat ev
+        sat := s'
+        if m then
+          expect := true
+          listening := false
+      if expect != requested then
+        r := { r with diffs := s!"op {n} deliver {name}: model fires={expect} impl fires={requested}" :: r.diffs }
+      -- property bookkeeping on the implementation's own behaviour
+      if implListening then hist := hist ++ [ev]
+      if requested then
+        implFires := implFires + 1
+        implListening := false
+    | "answer" :: "T" :: occ :: _ =>
+      let k := (occ.toNat?).getD 0
+      if requested then
+        r := { r with specs := s!"catch_fired_without_event: op {n}" :: r.specs }
+      if k < rounds then
+        listening := true
+        implListening := true
+    | _ => r := { r with bad := s!"op {n}" :: r.bad }
+  -- C14 over the whole history the node observed
+  let counts := (List.range d).map (matchCount hist)
+  if par && d ≥ 2 then
+    let mn := counts.foldl min (counts.headD 0)
+    if implFires > mn then
+      r := { r with specs := s!"pm_bound_engine: fired {implFires} > least matched {mn}" :: r.specs }
+    -- "exactly k" is only claimed at moments when all counts are equal; evaluate it at the end of the history
+    -- provided the node was listening at the end or had just fired
+    if counts.all (· == mn) && implFires != mn && (implListening || implFires > mn) then
+      r := { r with specs := s!"pm_exact_engine: every definition observed {mn} times, fired {implFires}" :: r.specs }
+  return { r with nontrivial := implFires ≥ 2 }
+
+end Bpmn.Driver.C14
